@@ -170,7 +170,11 @@ SmallPayloads == {<<>>, <<LF>>, <<48, 48>>, <<48, 48, 48, 52, 9>>}
 SmallItems == {Data(p) : p \in SmallPayloads} \cup {Flush, Delim}
 
 CapChars == {97, EQ}                         \* "other" and '='
-CapTokens == NonEmptySeqs(CapChars, 2) \cup {<<97, EQ, EQ>>, <<97, EQ, 97>>, <<EQ, 97, EQ>>}
+TAB == 9
+\* The last token carries a whitespace byte other than SP in INTERIOR position (an agent string such as
+\* "a=<TAB>a"): capabilities are separated by SP only, so it is one capability.  (Leading / trailing
+\* whitespace of the whole list is trimmed by the receiver and is not part of a token.)
+CapTokens == NonEmptySeqs(CapChars, 2) \cup {<<97, EQ, EQ>>, <<97, EQ, 97>>, <<EQ, 97, EQ>>, <<97, EQ, TAB, 97>>}
 RefTokens == {<<114>>, <<114, 47, EQ>>, <<97, 47, 98>>}
 Sha == [i \in 1..40 |-> 49]
 
